@@ -106,6 +106,19 @@ func genCmdCase(r *Rand, form string, sz caseSize) *Case {
 		an := genAnno(r, ref, true, 0)
 		q := genAln(r, ref, alnSpec{W: w, N: nrec, Prof: -1, SNP: 0.1, Prefix: "q"})
 		all := Aln{Names: append([]string{"ref"}, q.Names...), Seqs: append([]string{ref}, q.Seqs...)}
+		if form != "variants-annoref" && r.P(0.2) {
+			// insertion columns: the reference row has gaps there (the alignment is wider than the reference is long)
+			for k := r.Range(1, 2); k > 0; k-- {
+				at := r.Range(1, len(all.Seqs[0])-1)
+				for i := range all.Seqs {
+					ch := byte('-')
+					if i > 0 && r.P(0.4) {
+						ch = "ACGT"[r.Intn(4)]
+					}
+					all.Seqs[i] = all.Seqs[i][:at] + string(ch) + all.Seqs[i][at:]
+				}
+			}
+		}
 		c.Cmd = "variants"
 		c.Files["msa"] = all.FASTA(lay)
 		c.Opts.RefID = "ref"
@@ -163,6 +176,17 @@ func genCmdCase(r *Rand, form string, sz caseSize) *Case {
 			c.Cmd = "closestn"
 			c.Opts.N = r.Range(1, 4)
 			c.Opts.MaxDist = -1
+			if r.P(0.4) {
+				// -d, alone or with -n; small values leave some queries without any neighbour (an empty row)
+				if c.Opts.Measure == "snp" {
+					c.Opts.MaxDist = float64(r.PickInt(0, 0, 1, 2, 5))
+				} else {
+					c.Opts.MaxDist = []float64{0, 0, 0.05, 0.1, 0.3}[r.Intn(5)]
+				}
+				if r.Bool() {
+					c.Opts.N = 0
+				}
+			}
 			c.Opts.Table = r.P(0.4)
 		}
 	case "topranking":
